@@ -129,3 +129,37 @@ func VerifC03History() {
 	vf.Assert("same-bass-whatever-was-read-before", (got.Base == nil) == (want.Base == nil) && (got.Base == nil || *got.Base == *want.Base))
 	vf.Reach("end")
 }
+
+// VerifC11SpellingHistory: two chords on the same letter, each with or without an accidental
+// and with a symbol that may itself begin with an accidental sign (D_b5 then Db_5): the second
+// converts exactly as it does on a fresh converter — however the spellings of the two chords
+// may look alike when their parts are run together.
+func VerifC11SpellingHistory() {
+	ki := vf.NondetIntRange("key", 0, 1)
+	key := op.Key{Name: crdx.Name([]int{0, 2}[ki]), Accidental: crdx.Acc([]int{0, -1}[ki])} // C, Eb
+	scale, err := op.NewScale(key)
+	vf.Assume(err == nil)
+	scale2, _ := op.NewScale(key)
+	l := vf.NondetIntRange("letter", 0, 6)
+	syms := []string{"", "b5", "5", "#11", "11"}
+	mk := func(name string) *ast.Chord {
+		c := &ast.Chord{Degree: verifDegreeNode(l, vf.NondetIntRange(name+".acc", -1, 1))}
+		if s := syms[vf.NondetIntRange(name+".symbol", 0, len(syms)-1)]; s != "" {
+			c.Symbol = &ast.ChordSymbol{Symbol: verifTok(ast.SYMBOL, s)}
+		}
+		return c
+	}
+	first, second := mk("first"), mk("second")
+	used := NewSyllableChordConverter(scale)
+	used.Convert(first)
+	got, gerr := used.Convert(second)
+	want, werr := NewSyllableChordConverter(scale2).Convert(second)
+	vf.Assert("same-outcome-whatever-was-read-before", (gerr == nil) == (werr == nil))
+	if gerr != nil || werr != nil {
+		vf.Reach("rejected")
+		return
+	}
+	vf.Assert("same-degree-whatever-was-read-before", got.Degree == want.Degree)
+	vf.Assert("same-symbol-whatever-was-read-before", got.Chord == want.Chord)
+	vf.Reach("end")
+}
